@@ -151,3 +151,60 @@ def run(chk, fn, unit, rule="R-PCREL-ACCOUNTS-IMM"):
         chk.ob(rule, "reloc-trailing-size#%d" % n3, imm, loc=fn.loc(i),
                detail="set_leading_and_trailing_size(.., %s): the trailing size is not imm_size" % fn.text(x["args"][1])[:40])
     chk.floor(rule + ":reloc-formats", n3, 4)
+
+
+def run_position(chk, fn, unit, rule="R-PC-FROM-WRITER"):
+    """In an emit function bytes of the current instruction may already have been written through the CodeWriter, while
+    BaseAssembler::offset() still reports the start of the instruction (it only moves at writer.done()).  Every sum that
+    combines a branch / memory target (a label entry's offset, the code's base address) with the current position must take
+    the position from the writer's cursor."""
+    chk.rule(rule, "x86 _emit: every additive expression that combines a target (LabelEntry::offset(), base address) with the current "
+                   "position takes the position from writer.offset_from(_buffer_data) - directly or through a local - never from "
+                   "BaseAssembler::offset(), which does not include the prefix bytes already written by this call")
+    cls = {}
+
+    def classify(eid):
+        cur = stale = pc = False
+        for j in fn.walk(eid):
+            y = fn.e(j)
+            if y["k"] == "mcall" and y.get("cn") == "offset_from" and "_buffer_data" in fn.text(j):
+                cur = True
+            elif y["k"] == "mcall" and y.get("cn") == "offset" and (y.get("cls") or "").endswith("BaseAssembler"):
+                stale = True
+            elif y["k"] == "mcall" and y.get("cn") == "offset" and "LabelEntry" in (y.get("cls") or ""):
+                pc = True
+            elif y["k"] == "mcall" and y.get("cn") == "base_address":
+                pc = True
+            elif y["k"] == "ref" and y.get("did") in cls:
+                c = cls[y["did"]]
+                cur, stale, pc = cur or c[0], stale or c[1], pc or c[2]
+        return cur, stale, pc
+    # locals in declaration order (ids grow with source order inside one function)
+    for i, x in sorted(fn.ex.items(), key=lambda t: (t[1].get("l", 0), t[0])):
+        if x["k"] == "decl":
+            for v in x["vars"]:
+                if v.get("init"):
+                    c = classify(v["init"])
+                    if any(c):
+                        cls[v["did"]] = c
+    par = fn.parent_map()
+    n = 0
+    for i, x in sorted(fn.ex.items(), key=lambda t: (t[1].get("l", 0), t[0])):
+        if not (x["k"] == "binop" and x["op"] in ("+", "-")):
+            continue
+        p = par.get(i)
+        px = fn.e(p) if p is not None else None
+        while px and px["k"] in ("paren", "cast"):
+            p = par.get(p)
+            px = fn.e(p) if p is not None else None
+        if px and px["k"] == "binop" and px["op"] in ("+", "-"):
+            continue
+        cur, stale, pc = classify(i)
+        if not pc or not (cur or stale):
+            continue
+        n += 1
+        chk.ob(rule, "%s|sum#%d" % (fn.name.replace("asmjit::", ""), n), not stale, loc=fn.loc(i),
+               detail="`%s` combines a target with BaseAssembler::offset(): the prefix bytes already written by this call are not counted, the "
+                      "displacement is off by their number" % " ".join(fn.text(i).split())[:90],
+               key="pcpos|%s|sum#%d" % (fn.name.replace("asmjit::", ""), n))
+    chk.floor(rule + ":sums", n, 2)
